@@ -106,6 +106,42 @@ func TestC18(t *testing.T) {
 			observe(tg.Name, ch, ch.Raw)
 		}
 	})
+	// (1b) returning clients: the cache holds ONE TLS 1.2 ticket / TLS 1.3 session, and several
+	// hellos are built from that same cache state (connections opened side by side before any
+	// of them completes): random, session id and key shares are fresh in each of them
+	for ti, tg := range targets {
+		if ti%mon.Pick(4, 1) != 0 && ti >= len(AllParrots) {
+			continue
+		}
+		for _, maxv := range []uint16{tls.VersionTLS12, tls.VersionTLS13} {
+			cache := tls.NewLRUClientSessionCache(4)
+			scfg := peer.ServerConfig()
+			scfg.MaxVersion = maxv
+			withCache := func(c *tls.Config) {
+				c.ClientSessionCache = cache
+				c.PreferSkipResumptionOnNilExtension = true
+			}
+			if h := RunCase(tg, GridCase{Server: scfg}, "example.test", withCache, peer.Opts{}); !h.OK() {
+				continue
+			}
+			for k := 0; k < 4; k++ {
+				cfg := peer.ClientConfig("example.test")
+				cfg.OmitEmptyPsk = true
+				withCache(cfg)
+				raw, _, err, pn := buildHello(cfg, tg.ClientID(), tg.Prepare())
+				if err != nil || pn != "" {
+					break
+				}
+				if ch, err := wire.ParseClientHello(raw); err == nil {
+					observe(tg.Name+"(returning)", ch, raw)
+					if len(ch.Ticket) > 0 || len(ch.PSKIds) > 0 {
+						r.Count("returning_hellos_offering_a_session", 1)
+					}
+				}
+			}
+		}
+	}
+	r.Floor("returning_hellos_offering_a_session", 100)
 	// (2) every share really works: pin the server to the share's group
 	type job struct {
 		t Target
